@@ -275,6 +275,12 @@ func runChain(ctx *hx.Ctx, spec *cg.Spec, stop int, only string) {
 		hx.Fatal("chaingen: %v", err)
 	}
 	defer c.Close()
+	// a second, real node that follows the chain through cmd/thor/node's own import path
+	rep, err := c.NewReplica()
+	if err != nil {
+		hx.Fatal("replica node: %v", err)
+	}
+	defer rep.Close()
 	var pend []pending
 	fail := func(class, msg string, height int, name string, found bool) {
 		ctx.Violation(class, msg, Replay{spec, height, name}, found)
@@ -336,6 +342,24 @@ func runChain(ctx *hx.Ctx, spec *cg.Spec, stop int, only string) {
 					return
 				}
 				pend = append(pend, pending{c.VLine(st.Parent, view, blk, now, ex), class, mu.name, hgt})
+				// node level: a block consensus rejects must leave the node's repository exactly as it was
+				if class != "accept" && mu.now == 0 {
+					nb := rep.Digest(id, c.Users[0].Addr)
+					ncls := rep.Import(blk)
+					na := rep.Digest(id, c.Users[0].Addr)
+					ctx.Cov.Count("node-import:" + strings.SplitN(ncls, ":", 2)[0])
+					switch {
+					case strings.HasPrefix(ncls, "panic"):
+						fail("panic-node-import:"+mu.name, fmt.Sprintf("node.processBlock panics on mutant %q of block #%d: %s", mu.name, hgt, ncls), hgt, mu.name, true)
+					case ncls == "ok":
+						fail("rejected-block-imported-by-node:"+mu.name, fmt.Sprintf("mutant %q (Process verdict %s) is imported by the node", mu.name, class), hgt, mu.name, true)
+					case nb != na:
+						fail("trace-left-node:"+mu.name, fmt.Sprintf("the node's import of mutant %q (rejected: %s) changed its repository: %s -> %s", mu.name, ncls, nb, na), hgt, mu.name, true)
+					}
+					if len(ctx.Violations) > 0 {
+						return
+					}
+				}
 			}
 			// structurally arbitrary blocks: byte-level mutations of the encoding that still decode
 			raw, _ := rlp.EncodeToBytes(st.Block)
@@ -383,6 +407,13 @@ func runChain(ctx *hx.Ctx, spec *cg.Spec, stop int, only string) {
 		if err := c.Commit(st, true); err != nil {
 			hx.Fatal("commit: %v", err)
 		}
+		if ncls := rep.Import(st.Block); ncls != "ok" {
+			fail("node-import-rejects-valid-block", fmt.Sprintf("the replica node does not import the valid block #%d: %s", hgt, ncls), hgt, "", false)
+			return
+		}
+		if rep.Repo.BestBlockSummary().Header.ID() != st.Block.Header().ID() {
+			ctx.Cov.Count("replica-best-differs")
+		}
 	}
 	if len(pend) == 0 {
 		return
@@ -417,7 +448,8 @@ func main() {
 	assumptions := []string{
 		"the block re-builder of the harness (chaingen.Build) is validated on every block by reproducing the packer's block id from the identity plan",
 		"repository digest = public API content (best, max number, conflicts per height, presence of the mutant id, a balance at the best state)",
-		"blocklisted origins and unused reserved tx fields are not generated; node-level import (executeAndCommitBlock) is exercised at Consensus.Process level only",
+		"every mutant consensus rejects is also fed to a second real node (cmd/thor/node processBlock -> executeAndCommitBlock through the verif hook) whose repository digest must not change; the node uses the wall clock, so the future-clock mutant is judged at Process level only",
+		"blocklisted origins and unused reserved tx fields are not generated",
 	}
 	load := func(path string) *Replay {
 		b, err := os.ReadFile(path)
